@@ -150,6 +150,12 @@ def mapf_record(rng):
     a, b = pick(), pick()
     if a == b:
         b = a + 1.0
+    if rng.random() < 0.35:
+        # nearly (but not) degenerate: end points that differ only in the last few digits
+        a = rng.choice([1e-6, 3.7e-6, 0.001, 1.0, 1234.5, 1e9]) * rng.choice([1, -1])
+        b = a * (1 + rng.choice([1, -1]) * 10.0 ** rng.randint(-13, -7))
+        if b == a:
+            b = a + abs(a) * 1e-7
     r0, r1 = pick(), pick()
     s = LinearScale().domain([a, b]).range([r0, r1]).clamp(rng.random() < 0.3)
     c = s.copy()
@@ -247,6 +253,20 @@ def main():
             for fn in (ticks_record, nice_record):
                 r = fn(d0, d1, m)
                 if r is not None:
+                    recs.append(r)
+        for _ in range(job.get("count", 0) // 3):
+            # span chosen so that err = m * step0 / span hugs one of the thresholds 0.15 / 0.35 / 0.75
+            m = rng.choice([7, 10, 23, 40, 51, 65, 77, 100])
+            step0 = 10.0 ** rng.randint(-5, 6)
+            err = rng.choice([0.15, 0.35, 0.75]) + rng.choice([-1, 1]) * rng.choice([0.0004, 0.002, 0.004, 0.006])
+            span = m * step0 / err
+            lo = rng.choice([0.0, 1.0, -span / 3, step0 * rng.randint(1, 50), rng.uniform(-span, span)])
+            d0, d1 = (lo, lo + span) if rng.random() < 0.7 else (lo + span, lo)
+            for fn in (ticks_record, nice_record):
+                r = fn(d0, d1, m)
+                if r is None:
+                    disc += 1
+                else:
                     recs.append(r)
         for _ in range(job.get("count", 0)):
             mag = 10.0 ** rng.uniform(-6, 9)
